@@ -282,6 +282,15 @@ def proof_step(prop, tier):
         r["log_tail"] = (r["log_tail"] + "\n" + out[-3000:])[-6000:]
         r["secs"] = time.time() - t0
         return r
+    if tier == "thorough" and os.environ.get("VERIF_NO_COQCHK") != "1":
+        # independent re-check of the compiled theorems of this property and everything they depend on
+        from . import coqchk
+        ck = coqchk.run(props=[prop])
+        r["coqchk"] = {"ok": ck["ok"], "axioms": ck["axioms"], "secs": ck["secs"], "cached": ck.get("cached", False)}
+        if not ck["ok"]:
+            r["failed"] = "coqchk rejected the compiled development: " + ck["log_tail"][-400:]
+            r["secs"] = time.time() - t0
+            return r
     asm = parse_assumptions(out)
     axioms = sorted({a for x in asm for a in x["axioms"]})
     r["axioms"] = axioms
@@ -418,6 +427,8 @@ class Run:
         cov.setdefault("trusted_base", tb)
         cov["theorems"] = pr.get("theorems", [])
         cov["proof_ok"] = bool(pr.get("ok"))
+        if pr.get("coqchk"):
+            cov["coqchk"] = pr["coqchk"]
         cov["known_findings_reproduced"] = self.known_seen
         cov["correspondence_breaks"] = len(self.corr_breaks)
         if self.notes:
